@@ -720,7 +720,9 @@ def _validate_path(res, fn, cfg, ctx, sx, rng, known):
         return True
     bad = [c for c in sxc.checks if c[1] == "violated"]
     sym_names = [c[0] for c in sx.checks if c[1] != "known"]
-    conc_names = [c[0] for c in sxc.checks]
+    symset = set(sym_names)
+    # checks that only exist natively (dtype / bit-pattern statements guarded by `if not sx.sym`) are allowed on top
+    conc_names = [c[0] for c in sxc.checks if c[0] in symset]
     if sym_names != conc_names:
         # different path natively (rounding at a branch): not comparable
         return False
